@@ -235,6 +235,13 @@ func makeComplexType(from *xsd.ComplexType, knownTypes *TypeList, logger *logrus
 	item := &StandardType{
 		baseType: baseType{name: from.Name.Local},
 	}
+	// A type may refer to itself, directly or through its children. It is known by name while its children are
+	// built, so that such a reference finds it instead of building it again without end; the caller adds the
+	// finished type.
+	if item.Name() != "" && findType(from, knownTypes) == nil {
+		knownTypes.Add(item)
+		defer knownTypes.remove(item)
+	}
 
 	for _, child := range getAllElements(from) {
 		c := createChildItem(child.Name, child.Type, false, child.Optional, child.Plural)
